@@ -13,12 +13,13 @@ import (
 
 // Workload is a record sequence with a partition into batches and writer options.
 type Workload struct {
-	Fixture  string    `json:"fixture"`
-	Records  []*vt.Val `json:"records"`
-	Batches  []int     `json:"batches"`
-	PageSize int       `json:"page_size"`
-	Codec    int       `json:"codec"`
-	Pending  int       `json:"pending_at_close,omitempty"` // C02/C09: records added after the last Write, before Close (never written)
+	Fixture   string    `json:"fixture"`
+	Records   []*vt.Val `json:"records"`
+	Batches   []int     `json:"batches"`
+	PageSize  int       `json:"page_size"`
+	Codec     int       `json:"codec"`
+	Pending   int       `json:"pending_at_close,omitempty"` // C02/C09: records added after the last Write, before Close (never written)
+	patterned bool
 }
 
 type wlCfg struct {
@@ -29,6 +30,152 @@ type wlCfg struct {
 	// bigPct: percentage of cases that are "big": either one page of 2000..5000 records (page bodies beyond 32/64 KiB)
 	// or 300..600 row groups of 1..2 records (footer beyond 64 KiB)
 	bigPct int
+	// noPatterns switches the patterned workloads off (fault-enumeration checks keep their workloads small)
+	noPatterns bool
+}
+
+var patCounts = []int{1, 2, 7, 8, 9, 15, 16, 17, 31, 32, 33, 63, 64, 65, 72, 127, 128, 129, 255, 256, 257, 504, 505, 511, 512, 513, 1000, 1001, 1023, 1024, 1025}
+var patPeriods = []int{1, 2, 3, 7, 8, 9, 16, 64}
+
+// genPatterned fills w with records cycling through a small pool with an exact period.
+func genPatterned(t *rapid.T, w *Workload, f *fx.Fixture, cfg wlCfg) {
+	g := cfg.gen
+	g.LongList, g.LongStr = 0, 0
+	switch rapid.IntRange(0, 3).Draw(t, "patNulls") {
+	case 0:
+		g.NullPct = 0
+	case 1:
+		g.NullPct = 100
+	}
+	// fixed list length for the whole workload (lists of exactly L elements), sometimes
+	fixedLen := -1
+	if rapid.Bool().Draw(t, "patFixedLen") {
+		fixedLen = rapid.SampledFrom([]int{0, 1, 7, 8, 9, 63, 64, 65}).Draw(t, "patLen")
+	}
+	pool := rapid.IntRange(1, 3).Draw(t, "patPool")
+	var base []*vt.Val
+	for i := 0; i < pool; i++ {
+		r := vt.GenRecord(t, f.Root, g)
+		if fixedLen >= 0 {
+			setListLens(f.Root, r, fixedLen)
+		}
+		base = append(base, r)
+	}
+	period := rapid.SampledFrom(patPeriods).Draw(t, "patPeriod")
+	n := rapid.SampledFrom(patCounts).Draw(t, "patCount")
+	max := cfg.maxRecs * 8
+	if len(f.Root.Columns()) > 12 && max > 300 {
+		max = 300
+	}
+	if max > 1100 {
+		max = 1100
+	}
+	for n > max {
+		n /= 2
+	}
+	for i := 0; i < n; i++ {
+		// record i is pool[(i / period) % pool]: runs of exactly `period` identical records
+		w.Records = append(w.Records, vt.Clone(base[(i/period)%pool]))
+	}
+	switch rapid.IntRange(0, 3).Draw(t, "patPage") {
+	case 0:
+		w.PageSize = n
+	case 1:
+		if n > 1 {
+			w.PageSize = n - 1
+		}
+	case 2:
+		w.PageSize = rapid.SampledFrom([]int{8, 64, 504, 512, 1000}).Draw(t, "patPageSize")
+	}
+	if w.PageSize < 1 {
+		w.PageSize = 1
+	}
+	if rapid.Bool().Draw(t, "patOneBatch") {
+		w.Batches = []int{n}
+	} else {
+		a := rapid.SampledFrom([]int{1, 8, 64, n / 2, n - 1}).Draw(t, "patSplit")
+		if a < 1 || a >= n {
+			w.Batches = []int{n}
+		} else {
+			w.Batches = []int{a, n - a}
+		}
+	}
+}
+
+// setListLens makes every list in the record exactly ln long (elements are copies of the first one or fresh zero values).
+func setListLens(n *vt.Node, v *vt.Val, ln int) {
+	var inner func(n *vt.Node, v *vt.Val)
+	inner = func(n *vt.Node, v *vt.Val) {
+		if n.Kind != vt.Group {
+			return
+		}
+		for i, c := range n.Children {
+			setListLens(c, v.F[i], ln)
+		}
+	}
+	switch n.Rep {
+	case vt.Optional:
+		if !v.Null {
+			inner(n, v)
+		}
+	case vt.Repeated:
+		var proto *vt.Val
+		if len(v.L) > 0 {
+			proto = v.L[0]
+		} else {
+			proto = vt.Nth(&vt.Node{Kind: n.Kind, Children: n.Children, Rep: vt.Required, Name: n.Name}, 0)
+			if n.Kind == vt.String {
+				proto.S = vt.Bytes{}
+			}
+		}
+		inner(n, proto)
+		// nested lists multiply: below the first repeated level keep at most 2 elements
+		v.L = nil
+		for i := 0; i < ln; i++ {
+			v.L = append(v.L, vt.Clone(proto))
+		}
+		sub := ln
+		if sub > 2 {
+			sub = 2
+		}
+		for _, e := range v.L {
+			if n.Kind == vt.Group {
+				for i, c := range n.Children {
+					shrinkLists(c, e.F[i], sub)
+				}
+			}
+		}
+	default:
+		inner(n, v)
+	}
+}
+
+func shrinkLists(n *vt.Node, v *vt.Val, max int) {
+	switch n.Rep {
+	case vt.Repeated:
+		if len(v.L) > max {
+			v.L = v.L[:max]
+		}
+		for _, e := range v.L {
+			if n.Kind == vt.Group {
+				for i, c := range n.Children {
+					shrinkLists(c, e.F[i], max)
+				}
+			}
+		}
+	case vt.Optional:
+		if !v.Null && n.Kind == vt.Group {
+			for i, c := range n.Children {
+				shrinkLists(c, v.F[i], max)
+			}
+		}
+	default:
+		if n.Kind == vt.Group {
+			for i, c := range n.Children {
+				shrinkLists(c, v.F[i], max)
+			}
+		}
+	}
 }
 
 var pageSizes = []int{1, 2, 3, 4, 5, 6, 7, 8, 9, 10, 11, 12, 13, 14, 15, 16, 17, 23, 24, 25, 31, 32, 33, 63, 64, 65, 100, 1000}
@@ -78,6 +225,13 @@ func genWorkload(t *rapid.T, cfg wlCfg) *Workload {
 				w.Batches = append(w.Batches, k)
 			}
 		}
+		return w
+	}
+	// patterned workloads: what independent random records (almost) never are - a few distinct records repeated
+	// with an exact period, an exact count around a power of two / a level-group boundary, a page size tied to the count
+	if b := rapid.IntRange(0, 99).Draw(t, "patterned?"); !cfg.noPatterns && b >= 20 && b < 34 {
+		genPatterned(t, w, f, cfg)
+		w.patterned = true
 		return w
 	}
 	var n int
@@ -134,6 +288,9 @@ func (w *Workload) labels() []string {
 	}
 	if len(w.Records) == 0 {
 		l = append(l, "empty")
+	}
+	if w.patterned {
+		l = append(l, "patterned")
 	}
 	if len(w.Batches) >= 300 {
 		l = append(l, "big:>=300-row-groups")
